@@ -223,6 +223,11 @@ def oracle(script: dict, run: Any) -> List[Violation]:
             out.append(Violation("C16/created-schedule-not-in-source", f"schedule {e[4]['id']} created through the kicker: the source holds {e[4].get('in_source')} "
                                  f"entries with that id afterwards (CreatedSchedule id {e[4].get('got_id')})", sid=e[4]["id"]))
             return out
+    for e in h.kind("op_unschedule"):
+        if e[4].get("in_source") != 0:
+            out.append(Violation("C16/unscheduled-still-in-source", f"schedule {e[4]['id']} was withdrawn with CreatedSchedule.unschedule() but its source still holds "
+                                 f"{e[4].get('in_source')} entries with that id", sid=e[4]["id"]))
+            return out
     state: Dict[Any, Dict[str, int]] = {}
     for e in run.events:
         kind = e[3]
